@@ -62,7 +62,7 @@ def required_counters(tier):
         "modules.without_import": 1,
         "dynamic.runs": 100,
         "dynamic.tracebacks_compared": 20,
-        "generated.modules": 300, "cells.through_one_transformer": 100, "compiled_code_decorator_counts_compared": 800,
+        "generated.modules": 300, "cells.through_one_transformer": 100, "compiled_code_decorator_counts_compared": 800, "dynamic.reruns_after_uninstall": 20, "ipython.cells": 40,
     }
 
 
@@ -318,6 +318,58 @@ def validate_reused_transformer(rec, sources, tc_string):
             return
 
 
+def ipython_arm(rec, rng):
+    """the real magic in a real InteractiveShell: extension loaded, typechecker chosen, chosen again, extension
+    RE-loaded (%reload_ext / a second load_ipython_extension), typechecker chosen again - after every step a cell
+    passed through shell.transform_ast carries exactly ONE import and ONE decorator per def / class"""
+    try:
+        from IPython.core.interactiveshell import InteractiveShell
+    except Exception:
+        return
+    import jaxtyping._ipython_extension as X
+
+    shell = InteractiveShell.instance()
+    steps = [
+        ("load_ext", lambda: shell.run_line_magic("load_ext", "jaxtyping")),
+        ("choose", lambda: shell.run_line_magic("jaxtyping.typechecker", "typeguard.typechecked")),
+        ("choose-again", lambda: shell.run_line_magic("jaxtyping.typechecker", "beartype.beartype")),
+        ("reload_ext", lambda: shell.run_line_magic("reload_ext", "jaxtyping")),
+        ("choose-after-reload", lambda: shell.run_line_magic("jaxtyping.typechecker", "typeguard.typechecked")),
+        ("load_ipython_extension-again", lambda: X.load_ipython_extension(shell)),
+        ("choose-after-second-load", lambda: shell.run_line_magic("jaxtyping.typechecker", "beartype.beartype")),
+    ]
+    chosen = False
+    for name, do in steps:
+        do()
+        chosen = chosen or name.startswith("choose")
+        for ci in range(3):
+            src = GM.gen_static_module(rng)
+            try:
+                orig = ast.parse(src)
+                compile(orig, "<cell>", "exec", dont_inherit=True)
+            except (SyntaxError, ValueError):
+                continue
+            T = shell.transform_ast(ast.parse(src))
+            rec.count("ipython.cells")
+            rec.case(("ipython", name, src), True)
+            case = {"ipython_step": name, "source": src[:1500]}
+
+            def is_jt(d):
+                return isinstance(d, ast.Call) and isinstance(d.func, ast.Attribute) and d.func.attr == "jaxtyped" and isinstance(d.func.value, ast.Name) and d.func.value.id == "jaxtyping"
+
+            n_imp_o = sum(isinstance(n, ast.Import) and any(a.name == "jaxtyping" for a in n.names) for n in ast.walk(orig))
+            n_imp = sum(isinstance(n, ast.Import) and any(a.name == "jaxtyping" for a in n.names) for n in ast.walk(T)) - n_imp_o
+            defs_o = [n for n in ast.walk(orig) if isinstance(n, (ast.FunctionDef, ast.ClassDef))]
+            defs_t = [n for n in ast.walk(T) if isinstance(n, (ast.FunctionDef, ast.ClassDef))]
+            per_def = sorted({sum(is_jt(d) for d in n.decorator_list) - 0 for n in defs_t})
+            want = [1] if (chosen and defs_o) else ([0] if defs_o else [])
+            want_imp = 1 if (chosen and defs_o) else n_imp  # a cell without definitions may or may not get the import
+            if len(defs_t) != len(defs_o) or per_def != want or (defs_o and chosen and n_imp != 1):
+                rec.violation("ipython-additions", case, f"after step {name!r}: cell with {len(defs_o)} definitions got {n_imp} added `import jaxtyping` and {per_def} jaxtyped decorators per definition (expected {want_imp} and {want})", mechanism="ipython-cell-additions-after-" + name.split("-")[0])
+                return
+    shell.ast_transformers = [t for t in shell.ast_transformers if "axtyping" not in type(t).__name__]
+
+
 # ------------------------------------------------------------------------------ dynamic arm
 SPY_MODULE = "def ident(fn, *args, **kwargs):\n    return fn\n"
 
@@ -353,10 +405,23 @@ def run_module(path, modname, hooked, scratch):
         finally:
             sys.settrace(None)
     finally:
-        sys.stdout = old_stdout
         if hook is not None:
             hook.uninstall()
         sys.modules.pop(modname, None)
+        # the module lives on after the import (and after the hook is gone): its functions are called again
+        try:
+            fn = getattr(sys.modules.get(modname) or locals().get("mod"), "rerun", None)
+            if fn is not None:
+                sys.settrace(tracer)
+                try:
+                    obs["rerun"] = ("ret", repr(fn()))
+                except BaseException as e:  # noqa
+                    tb = [fs.lineno for fs in traceback.extract_tb(e.__traceback__) if fs.filename == path]
+                    obs["rerun"] = ("exc", type(e).__name__, str(e)[:200], tb)
+                finally:
+                    sys.settrace(None)
+        finally:
+            sys.stdout = old_stdout
     obs["stdout"] = out.getvalue()
     obs["events"] = events
     return obs
@@ -393,9 +458,11 @@ def dynamic(rec, rng, scratch, idx):
     # reported at line 1. Events of line 1 are "events of the added expressions" and are left
     # out on both sides.
     filt = lambda ev: [e for e in ev if e[1] not in skip and e[1] != 1]
-    for key in ("stdout", "exc"):
-        if plain[key] != hooked[key]:
-            rec.violation("behaviour", case, f"hooked module differs in {key}: plain {plain[key]!r} vs hooked {hooked[key]!r}", mechanism="dynamic-" + key + "-differs")
+    if "rerun" in plain:
+        rec.count("dynamic.reruns_after_uninstall")
+    for key in ("stdout", "exc", "rerun"):
+        if plain.get(key) != hooked.get(key):
+            rec.violation("behaviour", case, f"hooked module differs in {key}: plain {plain.get(key)!r} vs hooked {hooked.get(key)!r}", mechanism="dynamic-" + key + "-differs")
             return
     if filt(plain["events"]) != filt(hooked["events"]):
         a, b = filt(plain["events"]), filt(hooked["events"])
@@ -436,6 +503,8 @@ def run_shard(rec, seed, shard, tier):
     for k in range(max(2, GENERATED[tier] // 8)):
         g = random.Random(f"{seed}/C10/{shard['i']}/cells{k}")
         validate_reused_transformer(rec, [GM.gen_static_module(g) for _ in range(3)], tcs[k % 2])
+    if shard["i"] % 4 == 1:
+        ipython_arm(rec, random.Random(f"{seed}/C10/{shard['i']}/ipython"))
     scratch = tempfile.mkdtemp(prefix="jtv_c10_")
     try:
         with open(os.path.join(scratch, "jtv_c10_spy.py"), "w") as f:
